@@ -145,11 +145,14 @@ contract(O + "Order.add_fill", props=["C05", "C01", "C09"],
                   ("monotone", "filled(self) == old(filled(self)) + abs(at(balance_updates, ob(self))) and filled(self) <= self._amount"),
                   ("closes", "self._state == (OrderState.COMPLETED if filled(self) >= self._amount else OrderState.OPEN)"),
                   ("wf", "order_wf(self)"),
+                  ("ghost_ledger", "forall(lambda s=Str: GHOST.ledger[s] == old(GHOST.ledger[s]) + at(balance_updates, s) + at(fees, s))"),
                   ("fill_recorded", "seq_len(self._fills) == old(seq_len(self._fills)) + 1 "
                                     "and same_object(seq_at(self._fills, seq_len(self._fills) - 1).balance_updates, balance_updates) "
                                     "and same_object(seq_at(self._fills, seq_len(self._fills) - 1).fees, fees) "
                                     "and seq_at(self._fills, seq_len(self._fills) - 1).when == when")],
-         modifies=["content(self._balance_updates)", "content(self._fees)", "self._state", "content(self._fills)"])
+         modifies=["content(self._balance_updates)", "content(self._fees)", "self._state", "content(self._fills)", "GHOST.ledger"],
+         # ghost ledger: every number recorded on an order enters the ledger (C01)
+         ghost_exit=[("GHOST.ledger", "mmap_add(GHOST.ledger, balance_updates, fees)")])
 
 contract(O + "Order.add_loan", props=["C11"], types={"loan_id": "Str"},
          ensures=[("added", "forall(lambda s=Str: (s in self._loan_ids) == (old(s in self._loan_ids) or s == loan_id))")],
